@@ -4,6 +4,7 @@ pub mod c01;
 pub mod c02;
 pub mod c03;
 pub mod c04;
+pub mod c05;
 pub mod c09;
 pub mod c10;
 pub mod c15;
@@ -17,6 +18,7 @@ pub fn plan_for(id: &str) -> Option<Plan> {
         "C02" => c02::plan(),
         "C03" => c03::plan(),
         "C04" => c04::plan(),
+        "C05" => c05::plan(),
         "C09" => c09::plan(),
         "C10" => c10::plan(),
         "C15" => c15::plan(),
@@ -30,6 +32,7 @@ pub fn shard_for(id: &str, ctx: &Ctx) -> Option<Shard> {
         "C02" => c02::shard(ctx),
         "C03" => c03::shard(ctx),
         "C04" => c04::shard(ctx),
+        "C05" => c05::shard(ctx),
         "C09" => c09::shard(ctx),
         "C10" => c10::shard(ctx),
         "C15" => c15::shard(ctx),
